@@ -27,6 +27,11 @@ Theorem c25_can_reach_ref_correct : forall g u v, reach_plus_ref g u v = true <-
 Proof. exact reach_plus_ref_correct. Qed.
 Print Assumptions c25_can_reach_ref_correct.
 
+Theorem c25_reach_rows_correct : forall g u v, u < length g -> v < length g ->
+  (In v (nth u (reach_rows g) []) <-> reachable_plus g u v).
+Proof. exact reach_rows_correct. Qed.
+Print Assumptions c25_reach_rows_correct.
+
 Theorem c25_pdom_ref_correct : forall g x d w, pdom_ref g x d w = true <-> postdominates g x d w.
 Proof. exact pdom_ref_correct. Qed.
 Print Assumptions c25_pdom_ref_correct.
